@@ -87,8 +87,10 @@ def ev_raise(ctx, out, exc):
 # ---- consumers -------------------------------------------------------------
 
 
-async def consume_a(b, plan, close):
-    """Asynchronous consumer for iterator tools (library side)."""
+async def consume_a(b, plan, close, keep=None):
+    """Asynchronous consumer for iterator tools (library side).  ``keep``: a list that collects every
+    yielded object so that their signatures can be taken AGAIN at the end (a tool that keeps mutating an
+    object it already handed out is visible only then)."""
     ctx = b.ctx
     try:
         made = b.tool.make_a(b.S, b.F, b.P, b.V)
@@ -120,7 +122,11 @@ async def consume_a(b, plan, close):
             done[o] = True
         else:
             ctx.ev("yield", o, sig(value))
+            if keep is not None:
+                keep.append(value)
             del value
+    if keep is not None:
+        ctx.ev("kept", 0, tuple(sig(v) for v in keep), tuple(sig(s_.items) for s_ in b.srcs if hasattr(s_, "items")))
     if close:
         await aclose_outs(b)
 
@@ -138,7 +144,7 @@ async def aclose_outs(b):
             ctx.ev("close-raise", type(exc).__name__, planned_name(ctx, exc), str(exc)[:100])
 
 
-def consume_s(b, plan):
+def consume_s(b, plan, keep=None):
     """Synchronous consumer for the stdlib reference."""
     ctx = b.ctx
     try:
@@ -168,7 +174,11 @@ def consume_s(b, plan):
             done[o] = True
         else:
             ctx.ev("yield", o, sig(value))
+            if keep is not None:
+                keep.append(value)
             del value
+    if keep is not None:
+        ctx.ev("kept", 0, tuple(sig(v) for v in keep), tuple(sig(s_.items) for s_ in b.srcs if hasattr(s_, "items")))
 
 
 async def await_a(b):
@@ -200,7 +210,8 @@ def run_async(desc, mode="hooks", cancel_at=None, cancel_exc=None, close=None):
     close = desc.get("close", True) if close is None else close
     with loop_mode(b.ctx, mode):
         if b.tool.kind == "iter":
-            outcome = run(b.ctx, consume_a(b, plan, close), cancel_at, cancel_exc)
+            keep = [] if desc.get("keep") else None
+            outcome = run(b.ctx, consume_a(b, plan, close, keep), cancel_at, cancel_exc)
         else:
             outcome = run(b.ctx, await_a(b), cancel_at, cancel_exc)
     return b, outcome
@@ -210,13 +221,13 @@ def run_sync(desc):
     b = build(desc, "s")
     plan = desc.get("plan") or []
     if b.tool.kind == "iter":
-        consume_s(b, plan)
+        consume_s(b, plan, [] if desc.get("keep") else None)
     else:
         call_s(b)
     return b
 
 
-CONSUMER_EVENTS = ("yield", "stop", "raise", "return", "closed")
+CONSUMER_EVENTS = ("yield", "stop", "raise", "return", "closed", "kept")
 IGNORED_FOR_TRACE = ("close", "close-raise") if __import__("os").environ.get("VF_STRICT_REPULL") else ("repull", "close", "close-raise")
 
 
